@@ -15,7 +15,8 @@ spliced into its callers before any analysis runs:
 
 On the pinned tree nothing is new, nothing is spliced and the facts are untouched.
 """
-import copy, json, os, re
+import copy
+import json, json, os, re
 
 HERE = os.path.dirname(os.path.dirname(os.path.abspath(__file__)))
 BASELINE = os.path.join(HERE, 'baseline_fns.json')
@@ -326,6 +327,36 @@ def inline_new_helpers(j):
     keep = (called | refs)
     removed = [p for p in cands if p not in keep]
     # transitively: a candidate kept alive only by a removed candidate
+    # a closure all of whose uses were direct calls is gone with them: its body would otherwise be read as a second, generic copy
+    dead_closures = []
+    if ccands:
+        ts_of = {}
+        for f in j['fns']:
+            for b in f['blocks']:
+                for s_ in b['stmts']:
+                    if s_['k'] == 'assign' and s_['rv']['k'] == 'aggregate' and s_['rv']['kind'].get('a') == 'closure' and s_['rv']['kind']['path'] in ccands:
+                        ts_of[s_['rv']['kind']['path']] = s_['place']['ty']
+        for cp, ts in ts_of.items():
+            alive = False
+            for f in j['fns']:
+                if f['path'] == cp:
+                    continue
+                for b in f['blocks']:
+                    t = b['term']
+                    if t['k'] == 'call' and ts in json.dumps(t):
+                        alive = True
+                        break
+                    for s_ in b['stmts']:
+                        if s_['k'] == 'assign' and s_['rv']['k'] == 'aggregate' and s_['rv']['kind'].get('path') != cp and ts in json.dumps(s_['rv'].get('ops', [])):
+                            alive = True
+                            break
+                    if alive:
+                        break
+                if alive:
+                    break
+            if not alive:
+                dead_closures.append(cp)
+    removed = list(removed) + dead_closures
     j['fns'] = [f for f in j['fns'] if not (f['label'] == 'fn' and f['path'] in removed)]
     info['removed'] = sorted(removed)
     # new private structs that only bundle locals of a function are taken apart again (one local per field)
@@ -380,6 +411,11 @@ def collapse_moves(f):
             l = ren[l]
             d += 1
         return l
+    # the surviving local of a chain of moves carries the name a user gave to any link of the chain
+    for x in list(ren):
+        r = res(x)
+        if not f['locals'][r].get('name') and f['locals'][x].get('name'):
+            f['locals'][r]['name'] = f['locals'][x]['name']
 
     def fix(x):
         if isinstance(x, dict):
